@@ -15,11 +15,14 @@
    - SEVERAL (shift, axis) PAIRS: C12_accumulate — the shifts are accumulated per axis: ascending over the axes that
      occur, each with the sum of the shifts requested for it (repeated axes add up); C12_roll_pairs — the result holds
      at c the element found by moving every listed axis entry back by its accumulated shift (roll_src).
-   NOT YET PROVED (exhaustively checked by the correspondence run, incl. the inverse laws flip-flip,
-   roll(s)-roll(-s) and k + (4-k) quarter turns executed on the implementation): roll of rank-1 arrays / with no
-   axis as an array-level statement, three quarter turns as three successive single turns, and negative spellings of
-   the rot90 axes. *)
-From ArrRs Require Import Index Axis Axis_proofs Broadcast_proofs Reorder Reorder_proofs Reorder_axis Roll_pairs.
+   - C12_rot90_three — three turns (the code: exchange the two axes, then flip the second) equal three successive
+     single turns, as a coordinate map; C12_rot90_four — four successive single turns restore the array.
+   - C12_rot90_spelling — negative spellings of the plane axes denote the axes counted from the end (for every count).
+   - C12_roll_flat / C12_roll_rank1 — with no axis (any rank) and on rank-1 arrays the element list is rotated by
+     the shift (C12_rotate: index i goes to (i + shift) mod n) and the shape is kept.
+   Also exhaustively checked by the correspondence run: the inverse laws flip-flip, roll(s)-roll(-s) and k + (4-k)
+   quarter turns executed on the implementation. *)
+From ArrRs Require Import Index Axis Axis_proofs Broadcast_proofs Reorder Reorder_proofs Reorder_axis Roll_pairs Rot3_proofs.
 
 Theorem C12_rotate : forall (A : Type) (d : A) (l : list A) (s : Z) i, i < length l ->
   nth (Z.to_nat ((Z.of_nat i + s) mod Z.of_nat (length l))) (rotate l s) d = nth i l d.
@@ -110,6 +113,35 @@ Proof. exact @rot90_two. Qed.
 
 Theorem C12_rot90_mod4 : forall (T : Type) (dflt : T) (a : arr T) k axes, rot90 dflt a k axes = rot90 dflt a (k mod 4) axes.
 Proof. exact @rot90_mod4. Qed.
+
+Theorem C12_rot90_three : forall (T : Type) (dflt : T) (a : arr T) p q,
+  wf a -> pos_shape (shape a) -> 2 <= ndim a -> (Z.of_nat (ndim a) < two64)%Z -> p < ndim a -> q < ndim a -> p <> q ->
+  exists R1 R2 R, rot90 dflt a 1 [Z.of_nat p; Z.of_nat q] = Ok R1 /\ rot90 dflt R1 1 [Z.of_nat p; Z.of_nat q] = Ok R2 /\
+    rot90 dflt R2 1 [Z.of_nat p; Z.of_nat q] = Ok R /\
+    rot90 dflt a 3 [Z.of_nat p; Z.of_nat q] = Ok R /\ wf R /\ shape R = swap_list (shape a) p q /\
+    forall c, in_range (shape R) c ->
+      get dflt R c = get dflt a (upd (swap_list c p q) p (nth p (shape a) 0 - 1 - nth q c 0)).
+Proof. exact @rot90_three. Qed.
+
+Theorem C12_rot90_four : forall (T : Type) (dflt : T) (a : arr T) p q,
+  wf a -> pos_shape (shape a) -> 2 <= ndim a -> (Z.of_nat (ndim a) < two64)%Z -> p < ndim a -> q < ndim a -> p <> q ->
+  exists R1 R2 R3, rot90 dflt a 1 [Z.of_nat p; Z.of_nat q] = Ok R1 /\ rot90 dflt R1 1 [Z.of_nat p; Z.of_nat q] = Ok R2 /\
+    rot90 dflt R2 1 [Z.of_nat p; Z.of_nat q] = Ok R3 /\ rot90 dflt R3 1 [Z.of_nat p; Z.of_nat q] = Ok a.
+Proof. exact @rot90_four. Qed.
+
+Theorem C12_rot90_spelling : forall (T : Type) (dflt : T) (a : arr T) k p q,
+  (Z.of_nat (ndim a) < two64)%Z -> (- Z.of_nat (ndim a) <= p < Z.of_nat (ndim a))%Z -> (- Z.of_nat (ndim a) <= q < Z.of_nat (ndim a))%Z ->
+  rot90 dflt a k [p; q] = rot90 dflt a k [Z.of_nat (Z.to_nat (if (p <? 0)%Z then p + Z.of_nat (ndim a) else p)%Z);
+                                          Z.of_nat (Z.to_nat (if (q <? 0)%Z then q + Z.of_nat (ndim a) else q)%Z)].
+Proof. exact @rot90_spelling. Qed.
+
+Theorem C12_roll_flat : forall (T : Type) (dflt : T) (a : arr T) s, wf a ->
+  roll dflt a [s] None = Ok (mk (rotate (elems a) s) (shape a)).
+Proof. exact @roll_flat. Qed.
+
+Theorem C12_roll_rank1 : forall (T : Type) (dflt : T) (a : arr T) s z n, wf a -> shape a = [n] -> (-1 <= z < 1)%Z ->
+  roll dflt a [s] (Some [z]) = Ok (mk (rotate (elems a) s) (shape a)).
+Proof. exact @roll_rank1. Qed.
 
 Example C12_axis_nonvacuous :
   flip 0%Z (mk (map Z.of_nat (seq 0 12)) [2;3;2]) (Some [(-2)%Z]) = Ok (mk [4;5;2;3;0;1;10;11;8;9;6;7]%Z [2;3;2]) /\
